@@ -326,10 +326,30 @@ func checkViewForms(w *World, c *Check) {
 			continue // list views (ToItemCollection, ToIRIs) hand out a pointer into the value and cannot serve copies
 		}
 		listed := map[string]types.Type{}
-		for _, b := range f.Blocks {
-			for _, in := range b.Instrs {
-				if ta, ok := in.(*ssa.TypeAssert); ok {
-					listed[types.TypeString(ta.AssertedType, func(p *types.Package) string { return "" })] = ta.AssertedType
+		// the helper itself and the package helpers it hands its operand to (copyToCollection(it) for the value forms)
+		units := []*ssa.Function{f}
+		for _, call := range callsIn(f) {
+			h := call.Common().StaticCallee()
+			if h == nil || !w.InPkg(h) || h.Blocks == nil || h == f || h.TypeParams().Len() > 0 || len(h.TypeArgs()) > 0 {
+				continue
+			}
+			for _, a := range call.Common().Args {
+				if a == ssa.Value(f.Params[0]) {
+					units = append(units, h)
+				}
+			}
+		}
+		for _, u := range units {
+			for _, b := range u.Blocks {
+				for _, in := range b.Instrs {
+					if ta, ok := in.(*ssa.TypeAssert); ok {
+						if u != f {
+							if _, onParam := ta.X.(*ssa.Parameter); !onParam {
+								continue
+							}
+						}
+						listed[types.TypeString(ta.AssertedType, func(p *types.Package) string { return "" })] = ta.AssertedType
+					}
 				}
 			}
 		}
